@@ -290,6 +290,28 @@ Proof.
   destruct (numarg "factor" ps); simpl in P; [|discriminate]. injection P as <- _ _. reflexivity.
 Qed.
 
+(* ---- one name in two roles: a sweep that reads a variable from a context key spelled like a parameter of the swept element it
+        does not bind (or two variables reading one key) cannot get a signature; construction fails, inspection reports the node
+        invalid and the configuration is rejected -- it never reaches a run in which the element is called without that parameter ---- *)
+Theorem C02_name_collision_rejected : forall pub elem sw cfg ck k,
+  In k (from_ctx_keys (sw_vars sw)) -> In k (required_ext elem sw ++ optional_ext elem sw) ->
+  exists x, construct (mkNode (sweep_proc pub elem sw) cfg ck) = Fail (Err SConstruct "ValueError" x).
+Proof.
+  intros pub elem sw cfg ck k H1 H2. apply duplicate_parameter_rejected. simpl.
+  intros N.
+  assert (D : forall a b : list string, NoDup (a ++ b) -> In k a -> In k b -> False).
+  { clear. induction a as [|h t IH]; simpl; intros b N Ha Hb; [contradiction|].
+    inversion N as [|? ? Hn N']; subst. destruct Ha as [->|Ha]; [apply Hn, in_or_app; right; exact Hb|eapply IH; eauto]. }
+  exact (D _ _ N H1 H2).
+Qed.
+Theorem C02_accepted_nodes_have_distinct_parameters : forall n u, construct n = Ok u -> NoDup (pr_params (n_proc n)).
+Proof. exact constructed_has_distinct_parameters. Qed.
+Example ex_name_collision :
+  exists x, construct (mkNode (sweep_proc probe_sweep_publishes (lib_src false) (mkSweep [("v", VFromCtx "value")] [] Comb false)) [] None)
+            = Fail (Err SConstruct "ValueError" x).
+Proof. eexists. vm_compute. reflexivity. Qed.
+
+Print Assumptions C02_name_collision_rejected.
 Print Assumptions C02_no_unresolvable_parameter.
 Print Assumptions C02_no_type_gate_failure.
 Print Assumptions C02_keys_sound_variant.
